@@ -116,3 +116,7 @@ Definition ReseatOK (l r : list bcs) : Prop :=
   /\ ReseatSpecP l r                (* the property statement, clause by clause *)
   /\ ElapsedP l r                   (* elapsed time between consecutive originals unchanged *)
   /\ strictly_incr (times r).       (* the result's times strictly increase *)
+
+(* a tempo point of a TimingMap sits at init + (integrated time) with the bpm of the listed change *)
+Definition bco_near (init : Q) (b : bco) (p : Q * bcs) : Prop :=
+  bo_off b == init + fst p /\ bo_bpm b == bs_bpm (snd p).
